@@ -22,6 +22,10 @@ def hx(b):
 
 # ---------------------------------------------------------------- test classes (defined once, at import)
 
+def _source_identified(a, b):
+    return a + 2 * b
+
+
 def _load_nutils():
     from nutils import types
     return types
@@ -38,6 +42,10 @@ class ImmA(T.Immutable):
 class ImmV1(T.Immutable, version=1):
     def __init__(self, a, b=4, c='z'):
         pass
+
+
+# a redefinition of ImmA under the same module.qualname with a bumped version (what `version=` is for)
+ImmA_v5 = T.ImmutableMeta('ImmA', (T.Immutable,), {'__init__': ImmA.__init__, '__qualname__': 'ImmA', '__module__': __name__}, version=5)
 
 
 class ImmVar(T.Immutable):
@@ -161,6 +169,14 @@ def modqual(t):
 NPKIND = dict(b=bool, i=int, f=float, c=complex)
 
 
+class _Item(tuple):
+    """('pair', k, v) or ('counted', n, item): a piece of a preimage, never confused with a user tuple"""
+
+
+def _is_item(k, tag):
+    return type(k) is _Item and tuple.__getitem__(k, 0) == tag
+
+
 def describe(o, ctx):
     """returns (ctor, atoms, children, ordered) with ctor one of the model's constructors"""
     sp = ctx.special.get(id(o))
@@ -178,10 +194,10 @@ def describe(o, ctx):
     if isinstance(o, T.DataClass):
         return ('dclass', [modqual(t)], [getattr(o, n) for n in t.__signature__.parameters], True)
     if isinstance(o, T.frozendict):
-        return ('frozendict', [modqual(t)], [('pair', k, v) for k, v in o.items()], False)
+        return ('frozendict', [modqual(t)], [_Item(('pair', k, v)) for k, v in o.items()], False)
     if isinstance(o, T.frozenmultiset):
         cnt = collections.Counter(iter(o))
-        return ('frozenmultiset', [modqual(t)], [('counted', n, k) for k, n in cnt.items()], False)
+        return ('frozenmultiset', [modqual(t)], [_Item(('counted', n, k)) for k, n in cnt.items()], False)
     if isinstance(o, numpy.generic):
         k = o.dtype.kind
         if k in NPKIND:
@@ -210,7 +226,7 @@ def describe(o, ctx):
     if t is list:
         return ('list', [], list(o), True)
     if t is dict:
-        return ('dict', [], [('pair', k, v) for k, v in o.items()], False)
+        return ('dict', [], [_Item(('pair', k, v)) for k, v in o.items()], False)
     if t is set:
         return ('set', [], list(o), False)
     if t is frozenset:
@@ -345,9 +361,9 @@ def supported_domain(o, ctx, names=None):
     if ctor == 'opaque': ok &= b'\0' not in atoms[0]
     if ctor == 'bufio': ok = False       # documented ambiguity, outside the supported domain
     for k in kids:
-        if isinstance(k, tuple) and len(k) == 3 and k[0] == 'pair' and ctor in ('dict', 'frozendict'):
+        if _is_item(k, 'pair'):
             ok &= supported_domain(k[1], ctx, names)[0] and supported_domain(k[2], ctx, names)[0]
-        elif isinstance(k, tuple) and len(k) == 3 and k[0] == 'counted' and ctor == 'frozenmultiset':
+        elif _is_item(k, 'counted'):
             ok &= k[1] < 10000 and supported_domain(k[2], ctx, names)[0]
         elif ctor == 'dataclass':
             ok &= supported_domain(k[1], ctx, names)[0]
@@ -404,7 +420,7 @@ def gen_hashable(rng, depth):
     r = rng.random()
     if depth <= 0 or r < .45:
         return gen_scalar(rng)
-    n = rng.choice([0, 1, 1, 2, 2, 3])
+    n = rng.choice([0, 1, 1, 2, 2, 3, 4, 6])
     if r < .62: return tuple(gen_hashable(rng, depth - 1) for _ in range(n))
     if r < .68: return frozenset(gen_hashable(rng, depth - 1) for _ in range(n))
     if r < .73: return T.frozendict({gen_hashable(rng, depth - 1): gen_hashable(rng, depth - 1) for _ in range(n)})
@@ -447,7 +463,7 @@ def gen_value(rng, depth=3):
     """any value nutils_hash may be called with (incl. unhashable-by-Python containers and failing ones)"""
     r = rng.random()
     if r < .5: return gen_hashable(rng, depth)
-    n = rng.choice([0, 1, 2, 2, 3])
+    n = rng.choice([0, 1, 2, 2, 3, 5, 7])
     if r < .6: return [gen_value(rng, depth - 1) for _ in range(n)]
     if r < .68: return {gen_hashable(rng, depth - 1): gen_value(rng, depth - 1) for _ in range(n)}
     if r < .74: return {gen_hashable(rng, depth - 1) for _ in range(n)}
@@ -491,10 +507,10 @@ def variants(v, rng, ctx):
         except TypeError: pass
     elif t in (set, frozenset):
         L = list(v)
-        out += [tuple(L), T.frozenmultiset(L), frozenset(L) if t is set else set(L), frozenset(L + [None]), T.frozenmultiset(L + L)]
+        out += [tuple(L), T.frozenmultiset(L), frozenset(L) if t is set else set(L), frozenset(L + [None]), frozenset(L + ['extra']), frozenset(L[:-1]), frozenset(L[1:]), T.frozenmultiset(L + L)]
     elif t is dict or isinstance(v, T.frozendict):
         items = list(v.items())
-        out += [tuple(items), frozenset(items) if all(_py_hashable(i) for i in items) else None, dict(items[::-1]), dict(items[:-1]),
+        out += [tuple(items), frozenset(items) if all(_py_hashable(i) for i in items) else None, dict(items[::-1]), dict(items[:-1]), dict(items[1:]), dict(items + [('extra', None)]),
                 {val: k for k, val in items if _py_hashable(val)}, T.frozendict(v) if t is dict and all(_py_hashable(val) for _, val in items) else dict(v)]
     elif t is numpy.ndarray:
         out += [v.reshape(-1), v.reshape(v.shape[::-1]) if v.ndim else v.reshape(1), v.reshape(v.shape + (1,)), v.tobytes(), v.tolist() if v.ndim else (v.item(),)]
@@ -521,10 +537,10 @@ def variants(v, rng, ctx):
         out += [args, dict(zip(t.__signature__.parameters, args))]
     elif isinstance(v, T.frozenmultiset):
         L = list(v)
-        out += [T.frozenmultiset(L + L[:1]) if L else T.frozenmultiset([None]), frozenset(L), tuple(L), T.frozenmultiset(set(L))]
+        out += [T.frozenmultiset(L + L[:1]) if L else T.frozenmultiset([None]), frozenset(L), tuple(L), T.frozenmultiset(set(L)), T.frozenmultiset(L[:-1]), T.frozenmultiset(L + ['extra'])]
     elif isinstance(v, T.arraydata):
         a = numpy.asarray(v)
-        out += [a, (v.dtype, v.shape, v.bytes), T.arraydata(a.reshape(-1)), T.arraydata(a.astype(float)) if a.dtype != float else T.arraydata(a.astype(complex))]
+        out += [a, (v.dtype, v.shape, v.bytes), T.arraydata(a.reshape(-1)), T.arraydata(a.astype(complex)) if a.dtype.kind != "c" else None]
     elif dataclasses.is_dataclass(v):
         out += [StdDc2(v.x, v.y) if t is StdDc else StdDc(v.x, v.y), (v.x, v.y), t(v.y, v.x), {'x': v.x, 'y': v.y}, Pt(v.x, v.y)]
     return [o for o in out if o is not None]
@@ -589,12 +605,17 @@ ADVERSARIAL = [
 
 def builtin_corpus(rng):
     ad = list(ADVERSARIAL)
+    ad += [(frozenset(range(6)), frozenset(range(7))), (set('abcdefg'), set('abcdefh')), ({i: i for i in range(6)}, {i: i for i in range(7)}),
+           (dict.fromkeys('abcdef', 0), dict.fromkeys('abcdeg', 0)), (tuple(range(9)), tuple(range(8)) + (9,)), (list(range(30)), list(range(29)) + [0]),
+           (T.frozenmultiset(range(6)), T.frozenmultiset(range(7))), (T.frozendict({i: i for i in range(6)}), T.frozendict({i: i for i in range(5)})),
+           ('x' * 70, 'x' * 69 + 'y'), (bytes(range(80)), bytes(range(79)) + b'\0'), (10**40, 10**40 + 1), (ImmVar(*range(7)), ImmVar(*range(6), 7)),
+           (numpy.arange(40), numpy.arange(40) + (numpy.arange(40) == 39))]
     A = numpy.arange(6)
     ad += [(A.reshape(2, 3), A.reshape(3, 2)), (A, A.astype('<i4')), (A.astype('<i4'), A.astype('>i4')), (A, A.astype(float)), (A, A.tobytes()),
            (A.reshape(1, 6), A.reshape(6, 1)), (numpy.array(5), 5), (numpy.array([5]), numpy.array(5)), (numpy.zeros(0), numpy.zeros((0, 3))),
            (numpy.array([1, 2], dtype='<i8').view('<f8'), numpy.array([1, 2], dtype='<i8')), (numpy.array([True, False]), numpy.array([1, 0], dtype='|i1')),
            (numpy.arange(12).reshape(1, 12), numpy.arange(12).reshape(12)), (numpy.array([0.0]), numpy.array([-0.0]))]
-    ad += [(ImmA(1), ImmV1(1)), (ImmA(1), (1, 4, 'z', ())), (ImmA(1, 2), ImmA(1, 2, 'y')), (Outer1.Foo(1), Outer2.Foo(1)), (Outer1.Bar(1), Outer2.Bar(1)),
+    ad += [(ImmA(1), ImmA_v5(1)), (ImmA(1), ImmV1(1)), (ImmA(1), (1, 4, 'z', ())), (ImmA(1, 2), ImmA(1, 2, 'y')), (Outer1.Foo(1), Outer2.Foo(1)), (Outer1.Bar(1), Outer2.Bar(1)),
            (DcA(1), DcB(1)), (DcA(1), DcSub(1)), (DcA(1), ImmA(1)), (SingA(1), SingB(1)), (ImmA((1,), 2), ImmA(1, (2,))), (ImmVar(1, 2), ImmVar(1, (2,))),
            (ImmVar(1, 2), ImmVar((1, 2))), (ImmKw(1, k=2), ImmKw(1, l=2)), (ImmKw(1, k=2, l=3), ImmKw(1, k=3, l=2)),
            (T.frozendict({1: 2}), {1: 2}), (T.frozendict({1: 2}), T.frozendict({2: 1})), (T.frozenmultiset([1, 1, 2]), T.frozenmultiset([1, 2, 2])),
@@ -687,8 +708,11 @@ def stable_corpus(seed, n):
              T.frozenmultiset(strs + strs[:3]), {frozenset(strs[:3]): set(strs[3:6])}, StdDc(set(strs), frozenset(strs)),
              ImmA(frozenset(strs)), DcA(frozenset(strs), T.frozendict({s: s for s in strs}))]
     nrng = random.Random(seed + 1)
-    pairs, singles, distinct = nutils_corpus(nrng)
-    vals += [p[1] for p in pairs] + [p[2] for p in pairs] + singles
+    try:
+        pairs, singles, distinct = nutils_corpus(nrng)
+        vals += [p[1] for p in pairs] + [p[2] for p in pairs] + singles
+    except Exception as e:
+        vals.append('nutils corpus failed: %s' % type(e).__name__)   # reported by the main process as an outcome
     return vals
 
 
@@ -702,12 +726,18 @@ def sub_main():
         # hash of "the same" constructor call, with or without an ==-equal-but-different value built before it
         from nutils import evaluable
         first = sys.argv[4]
-        arg = evaluable.Argument('a', (evaluable.constant(3),), float)
         keep = []
-        if first == 'float-first': keep.append(evaluable.Sinc(arg, 1.0))
-        if first == 'bool-first': keep.append(evaluable.Sinc(arg, True))
-        p = evaluable.Sinc(arg, 1)
-        print(real_hash(p)); print(type(p.n).__name__)
+        try:
+            arg = evaluable.Argument('a', (evaluable.constant(3),), float)
+            if first == 'float-first': keep.append(evaluable.Sinc(arg, 1.0))
+            if first == 'bool-first': keep.append(evaluable.Sinc(arg, True))
+        except Exception as e:
+            arg = None
+        try:
+            p = evaluable.Sinc(arg, 1)
+            print(real_hash(p)); print(type(p.n).__name__)
+        except Exception as e:
+            print('exc|' + type(e).__name__); print('-')
         keep2 = []
         if first == 'float-first': keep2.append(DcA(1.0))
         if first == 'bool-first': keep2.append(DcA(True))
@@ -730,6 +760,9 @@ def run(c):
                       'threads do not construct interned objects concurrently (the weak table is not locked)']
     # NVH_C17_SKIP_BUILD=1 is a development switch (mutation testing of the Python side only); never set by ./check
     broken = [] if os.environ.get('NVH_C17_SKIP_BUILD') == '1' else c.build_and_audit()
+    if os.environ.get('NVH_C17_SKIP_BUILD') != '1':
+        ok, out = c.build(['NutilsVerif.Model.C17.Wire'])     # parser / request handler used by the driver script
+        if not ok: broken.append('lake build of the driver library Model/C17/Wire.lean failed: ' + out[-800:])
     c.log('built and audited')
     quick = c.tier == 'quick'
     rng = c.rng
@@ -773,10 +806,29 @@ def run(c):
     meths = [ctx.alias(solver.Direct(**la), ('Direct', la)), ctx.alias(solver.Newton(**la), ('Newton', la))]
     m = solver.LinesearchNewton(**la); ctx.alias(m, ('LinesearchNewton', m.strategy, m.failrelax, m.relax0, m.linargs)); meths.append(m)
     mm = solver.Minimize(**la); ctx.alias(mm, ('Minimize', mm.rampup, mm.rampdown, mm.failrelax, mm.linargs)); meths.append(mm)
-    aliased = [hf1, hf2, uf, wc] + meths
+    hf3 = ctx.alias(T.hashable_function(_source_identified), ('hashable_function', inspect.getsource(_source_identified)))
+    aliased = [hf1, hf2, hf3, uf, wc] + meths
+    try:
+        from nutils import mesh
+        topo_, geom_ = mesh.rectilinear([numpy.linspace(0, 1, 3)])
+        u_ = function.dotarg('u', topo_.basis('std', degree=1)); v_ = function.dotarg('v', topo_.basis('std', degree=1))
+        s1 = solver.System(topo_.integral(u_ * v_, degree=2), trial='u', test='v')
+        s2 = solver.System(topo_.integral(u_ ** 2, degree=2), trial='u')
+        for s_ in (s1, s2):
+            ctx.alias(s_, ('System', s_.trials, s_._System__value if s_.is_symmetric else s_._System__block_residual)); aliased.append(s_)
+        c.count('alias:System', 2)
+    except Exception as e:
+        c.failing_input('nutils-construction-raises:System', 'building a solver.System raises %s' % type(e).__name__, dict(error=repr(e)[:500]))
     values += aliased + [(hf1, 1), ImmA(hf1), ('hashable_function', 'ident-1'), 'ident-1', ('ident', 2), script, script.encode(), ('Direct', la), la]
     nrng = random.Random(rng.random())
-    npairs, nsingles, ndistinct = nutils_corpus(nrng)
+    try:
+        npairs, nsingles, ndistinct = nutils_corpus(nrng)
+    except Exception as e:
+        # on the unchanged tree these standard constructions never raise: an exception is an outcome of the real code
+        import traceback
+        c.failing_input('nutils-construction-raises', 'building standard nutils values (evaluables, topologies, samples, points) raises %s' % type(e).__name__,
+                        dict(error=repr(e)[:500], traceback=traceback.format_exc()[-1500:]))
+        npairs, nsingles, ndistinct = [], [], []
     nut_values = [p[1] for p in npairs] + [p[2] for p in npairs] + nsingles + [d[1] for d in ndistinct] + [d[2] for d in ndistinct]
     values += nut_values
 
@@ -816,7 +868,12 @@ def run(c):
     add('canon', ['canon|%s|%d|%s' % (sg, w, ' '.join(it.hex() for it in items)) for sg, w, items, _ in canon_cases])
 
     # ------------------------------------------------------------ stream: intern histories (events decided here, model asked for the identities)
-    intern_runs = [run_intern_history(rng, cls_kind, 40 if quick else 120) for cls_kind in (['dc', 'sing', 'arraydata', 'evaluable'] * (2 if quick else 25))]
+    intern_runs = []
+    for cls_kind in ['dc', 'sing', 'arraydata', 'evaluable'] * (2 if quick else 25):
+        try:
+            intern_runs.append(run_intern_history(rng, cls_kind, 40 if quick else 120))
+        except Exception as e:
+            c.failing_input('interned-construction-raises:' + cls_kind, 'constructing / dropping interned values raises %s' % type(e).__name__, dict(cls=cls_kind, error=repr(e)[:500]))
     add('intern', ['intern|' + ' '.join(r['events']) for r in intern_runs])
 
     # ------------------------------------------------------------ stream: cache.function keys
@@ -852,7 +909,11 @@ def run(c):
             c.traces += 1
     c.obligation('corr:nutils_hash-digest', nbad == 0, 'correspondence', '%d values, %d mismatches' % (len(values), nbad))
     digest_broken = nbad
-    nb = sum(1 for v, a in zip(values[:60], got('cname')) if a != ('err' if not real_hash(v).startswith('ok') else _real_constname(evaluable, v)))
+    def _cn(v):
+        try: return _real_constname(evaluable, v)
+        except Infra: raise
+        except Exception as e: return 'exc|' + type(e).__name__
+    nb = sum(1 for v, a in zip(values[:60], got('cname')) if a != ('err' if not real_hash(v).startswith('ok') else _cn(v)))
     c.obligation('corr:add_constant-name', nb == 0, 'correspondence', '60 values')
     if nb: c.broken_no_input('corr:add_constant-name', 'evaluable builder names constants differently from c<nutils_hash hex>', dict(n=nb))
     nb = sum(1 for b, a in zip(sha_in, got('sha1')) if hashlib.sha1(b).hexdigest() != a)
@@ -981,6 +1042,14 @@ def run(c):
             c.count('pickle:not-picklable'); continue
         npk += 1
         r2 = real_hash(w)
+        try:
+            same_value = key(w, ctx) == key(v, ctx)
+        except (KeyError, TypeError):
+            same_value = False
+        if not same_value:
+            # pickle itself does not preserve the value: e.g. one NaN object occurring twice comes back as two NaN objects,
+            # which a Counter / set / dict no longer merges
+            c.count('pickle:value-not-preserved-by-pickle'); continue
         if r2 != r:
             nb += 1
             c.failing_input('pickle-changes-hash:' + describe(v, ctx)[0], 'hash differs after a pickle round trip', dict(value=repr(v)[:400], before=r, after=r2))
@@ -1018,9 +1087,9 @@ def run(c):
     # ------------------------------------------------------------ canonical integer data
     nb = 0
     for (sg, w, items, arr), a in zip(canon_cases, got('canon')):
+        ad = None
         try:
             ad = T.arraydata(arr); out = 'ok|' + ad.bytes.hex()
-            if ad.dtype is not int and arr.dtype.kind in 'iu': out = 'wrong-dtype|' + repr(ad.dtype)
         except ValueError:
             out = 'err|ValueError'
         except Exception as e:
@@ -1031,7 +1100,11 @@ def run(c):
             nb += 1
             # oracle: values must survive (exact ints)
             c.extra.setdefault('canon_mismatch', []).append(dict(dtype=arr.dtype.str, values=arr.tolist(), model=a, real=out))
-        if out.startswith('ok') and numpy.asarray(ad).tolist() != arr.tolist():
+        if ad is not None and ad.dtype is not int:
+            nb += 1
+            c.failing_input('arraydata-not-canonical-int', 'arraydata of integer data is not stored as native int (collides with / differs from the same integers in another dtype)',
+                            dict(dtype=arr.dtype.str, values=arr.tolist(), stored_dtype=repr(ad.dtype)))
+        elif out.startswith('ok') and numpy.asarray(ad).tolist() != arr.tolist():
             nb += 1
             c.failing_input('arraydata-changes-values', 'arraydata holds other integers than the array it was built from', dict(dtype=arr.dtype.str, values=arr.tolist(), stored=numpy.asarray(ad).tolist()))
         elif out.startswith('ok'):
@@ -1084,9 +1157,9 @@ def _walk(v, ctx):
     yield v
     ctor, atoms, kids, _ = describe(v, ctx)
     for k in kids:
-        if isinstance(k, tuple) and len(k) == 3 and k[0] == 'pair' and ctor in ('dict', 'frozendict'):
+        if _is_item(k, 'pair'):
             yield from _walk(k[1], ctx); yield from _walk(k[2], ctx)
-        elif isinstance(k, tuple) and len(k) == 3 and k[0] == 'counted' and ctor == 'frozenmultiset':
+        elif _is_item(k, 'counted'):
             yield from _walk(k[2], ctx)
         elif ctor == 'dataclass':
             yield from _walk(k[1], ctx)
@@ -1119,7 +1192,7 @@ def _has_bufio(v, ctx):
     ctor, atoms, kids, _ = describe(v, ctx)
     if ctor == 'bufio': return True
     for k in kids:
-        if isinstance(k, tuple) and len(k) == 3 and k[0] in ('pair', 'counted'):
+        if type(k) is _Item:
             if _has_bufio(k[2], ctx) or (k[0] == 'pair' and _has_bufio(k[1], ctx)): return True
         elif ctor == 'dataclass':
             if _has_bufio(k[1], ctx): return True
@@ -1310,10 +1383,11 @@ def gen_ckey_cases(rng, ctx, n):
                 if route == 'pos': f(a, b, **kw)
                 elif route == 'kw': f(b=b, a=a, **kw)
                 else: f(a, **kw); b = 2
+                err = None
             except Exception as e:
-                raise Infra('cache.function call failed: %r' % e)
+                err = 'exc|%s' % type(e).__name__
         files = [x for x in os.listdir(sub) if not x.startswith('.')]
-        real = files[0] if len(files) == 1 else 'files:%r' % files
+        real = err or (files[0] if len(files) == 1 else 'files:%r' % files)
         fid = ('%s.%s:%d' % (f.__module__, f.__qualname__, ver)).encode()
         kwfull = dict(k=kw.get('k', None), l=kw.get('l', 1))
         cases.append((fid, [a, b], kwfull, real))
